@@ -49,6 +49,7 @@ def metaName (es : List Entry) : Bytes :=
 def parseBlock (cfg : Cfg) (d : Decoder) (crc : Checksum) (h : BlockHeader) (c : Bytes) :
     Except Err (List Entry) :=
   if cfg.validatesCrc && (crc c).toNat != h.crc then .error .crc else
+  if cfg.boundsDecodedLen && 32 * c.length + 64 < d.declLen c then .error .crc else
   match d.dec c with
   | none => .error .snappy
   | some u =>
@@ -189,32 +190,36 @@ def scanListed (cfg : Cfg) (d : Decoder) (crc : Checksum) (file : Bytes) : Optio
 /-! ### Allocation accounting (C04)
 
   An upper estimate, in bytes, of what the reader requests from the allocator while loading
-  `file`: every `make([]byte, n)`, the `make([]Entry, 0, EntryCount)` (48 bytes per slot), the
-  decoder's up-front output buffer, and the per-entry copies (bounded by the decoded length,
-  twice: `Deserialize` and `LoadIndex`). -/
+  `file`: every `make([]byte, n)` (header buffers, name, compressed data), the decoder's up-front
+  output buffer (`declLen`), the `make([]Entry, 0, EntryCount)` (48 bytes per slot) and the
+  per-entry copies (bounded by the decoded length, twice: `Deserialize` and `LoadIndex`). -/
 
 def entrySlot : Nat := 48
 
-/-- allocation of one `readNextBlock` + `ParseBlock` -/
-def blockAlloc (cfg : Cfg) (d : Decoder) (rest : Bytes) : Nat :=
-  if rest.length < 16 then 16 else
+/-- allocation of `ParseBlock` on compressed bytes `c` -/
+def parseAlloc (cfg : Cfg) (d : Decoder) (crc : Checksum) (h : BlockHeader) (c : Bytes) : Nat :=
+  if cfg.validatesCrc && (crc c).toNat != h.crc then 0 else
+  if cfg.boundsDecodedLen && 32 * c.length + 64 < d.declLen c then 0 else
+  d.declLen c +
+    (match d.dec c with
+     | none => 0
+     | some u => if cfg.validatesULen && u.length % 2 ^ 32 != h.usize then 0 else entrySlot * h.count + 2 * u.length)
+
+/-- allocation of one `readNextBlock` (+ `ParseBlock`) -/
+def blockAlloc (cfg : Cfg) (d : Decoder) (crc : Checksum) (rest : Bytes) : Nat :=
+  if shorterThan rest 16 then 16 else
   let h := decodeBlockHeader rest
   let after := rest.drop 16
-  -- with the bounds check the compressed buffer is only made when the bytes are there
-  let cbuf := if cfg.boundsCompressedSize && after.length < h.csize then 0 else h.csize
-  if after.length < h.csize then 16 + cbuf else
-  let c := after.take h.csize
-  let declared := d.declLen c
-  -- with the decoded-length bound the decoder is only called for a plausible declared length
-  let dbuf := if cfg.boundsDecodedLen && 32 * c.length + 64 < declared then 0 else declared
-  let ulen := match d.dec c with | some u => u.length | none => 0
-  16 + cbuf + dbuf + entrySlot * h.count + 2 * ulen
+  if shorterThan after h.csize then
+    -- the bytes are not there: with the bounds check nothing is allocated for them
+    16 + (if cfg.boundsCompressedSize then 0 else h.csize)
+  else 16 + h.csize + parseAlloc cfg d crc h (after.take h.csize)
 
 def loadAllocLoop (cfg : Cfg) (d : Decoder) (crc : Checksum) (rest : Bytes) : Nat :=
   match h : readNextBlock cfg d crc rest with
-  | .eof => blockAlloc cfg d rest
-  | .err _ => blockAlloc cfg d rest
-  | .ok _ rest' => blockAlloc cfg d rest + loadAllocLoop cfg d crc rest'
+  | .eof => blockAlloc cfg d crc rest
+  | .err _ => blockAlloc cfg d crc rest
+  | .ok _ rest' => blockAlloc cfg d crc rest + loadAllocLoop cfg d crc rest'
 termination_by rest.length
 decreasing_by
   have := readNextBlock_ok_length h
